@@ -358,6 +358,10 @@ def run(ctx):
             ctor, par, tag = tr.gen_config(rng, name, it)
             _, hpar, _ = tr.gen_config(rng, name, it + 7)
             hpar = {k: v for k, v in hpar.items() if k in par}
+            if it % 6 == 0:
+                # ... or the object was configured a hair away (a few parts in ten
+                # million) from the configuration asked for now
+                hpar = {k: (v * (1 + 3e-7) if v != 0 else 3e-9) for k, v in par.items()}
             case = {"kind": "config", "class": name, "ctor": ctor, "params": par,
                     "history": hpar if it % 3 == 0 and hpar else None,
                     "tag": tag, "seed": int(rng.integers(0, 2 ** 31)),
